@@ -437,7 +437,7 @@ def write_evidence_file(prop, tier, seed, hs, verdicts, known_lines, replay_path
     os.makedirs(EVID, exist_ok=True)
     mods = sorted({h.mod.module: h.mod for h in hs}.values(), key=lambda m: m.module)
     checks_decided = sum(d['n_success'] + d['n_unreachable'] + len(d['failed']) + d['covers_sat'] for _, _, d in verdicts)
-    nontrivial = [h for h, v, d in verdicts if v in ('pass', 'violation') and h.sym and h.expect != 'fail' and d['covers_total'] > 0 and d['covers_sat'] == d['covers_total']]
+    nontrivial = [h for h, v, d in verdicts if v in ('pass', 'violation') and h.sym and not h.trivial and h.expect != 'fail' and d['covers_total'] > 0 and d['covers_sat'] == d['covers_total']]
     samples = []
     for h, v, d in verdicts:
         st = d.get('stats') or {}
